@@ -73,13 +73,13 @@ SendPgn(ns, cfg, a, clk) ==
     THEN LET pgnA == PgnOf(a.dp, a.pf, a.ps)      \* PS belongs to the PGN only for PDU2
              b == [key |-> key, pgn |-> pgnA, prio |-> a.prio, size |-> len, total |-> np,
                    data |-> a.data, st |-> SENDING_BM, dl |-> clk + cfg.bamInt,
-                   sa |-> a.sa, da |-> GLOBAL, next |-> 0, waitOn |-> None]
+                   sa |-> a.sa, da |-> GLOBAL, next |-> 0, waitOn |-> None, act |-> clk]
          IN [ns |-> Wake([ns EXCEPT !.snd = Put(@, b)]), ret |-> TRUE,
              out |-> << Tx(a.prio, PF_TPCM, GLOBAL, a.sa, CmBam(len, np, pgnA)) >>]
     ELSE LET pgn0 == a.dp * 65536 + a.pf * 256
              b == [key |-> key, pgn |-> pgn0, prio |-> a.prio, size |-> len, total |-> np,
                    data |-> a.data, st |-> WAITING_CTS, dl |-> clk + T3,
-                   sa |-> a.sa, da |-> a.ps, next |-> 0, waitOn |-> 0]
+                   sa |-> a.sa, da |-> a.ps, next |-> 0, waitOn |-> 0, act |-> clk]
          IN [ns |-> Wake([ns EXCEPT !.snd = Put(@, b)]), ret |-> TRUE,
              out |-> << Tx(a.prio, PF_TPCM, a.ps, a.sa, CmRts(len, np, Min2(cfg.maxc, np), pgn0)) >>]
 
@@ -97,23 +97,23 @@ OnCm(ns, cfg, prio, sa, da, d, clk) ==
               ELSE LET mr == Min2(cfg.maxc, lim)
                        b == [key |-> key, pgn |-> pgn, size |-> size, total |-> total,
                              nextp |-> mr, maxrec |-> mr, data |-> <<>>, dl |-> clk + T2,
-                             sa |-> sa, da |-> da]
+                             sa |-> sa, da |-> da, act |-> clk]
                    IN R(Wake([ns EXCEPT !.rcv = Put(@, b)]), << TxCts(da, sa, mr, 1, pgn) >>)
       [] cb = CB_CTS ->
            LET n == d[2]   nextpk == d[3] - 1
                key == Hash(da, sa)
            IN IF ~Has(ns.snd, key) THEN R(ns, << TxAbort(da, sa, R_RESOURCES, pgn) >>)
               ELSE LET b == Get(ns.snd, key) IN
-                   IF n = 0 THEN R(Wake([ns EXCEPT !.snd = Put(@, [b EXCEPT !.dl = clk + Th])]), <<>>)
+                   IF n = 0 THEN R(Wake([ns EXCEPT !.snd = Put(@, [b EXCEPT !.dl = clk + Th, !.act = clk])]), <<>>)
                    ELSE LET n1 == Min2(n, b.total)
                             n2 == IF nextpk + n1 > b.total THEN b.total - nextpk ELSE n1
-                            b2 == [b EXCEPT !.waitOn = b.next + n2 - 1, !.st = SENDING_IN_CTS, !.dl = clk]
+                            b2 == [b EXCEPT !.waitOn = b.next + n2 - 1, !.st = SENDING_IN_CTS, !.dl = clk, !.act = clk]
                         IN R(Wake([ns EXCEPT !.snd = Put(@, b2)]), <<>>)
       [] cb = CB_EOMA ->
            LET key == Hash(da, sa)
            IN IF ~Has(ns.snd, key) THEN R(ns, << TxAbort(da, sa, R_RESOURCES, pgn) >>)
               ELSE LET b == Get(ns.snd, key)
-                       b2 == [b EXCEPT !.st = FINISHED, !.dl = clk]
+                       b2 == [b EXCEPT !.st = FINISHED, !.dl = clk, !.act = clk]
                    IN R(Wake([ns EXCEPT !.snd = Put(@, b2)]), Deliver(cfg, "eoma", prio, pgn, sa, da, d))
       [] cb = CB_BAM ->
            LET size == Rd2(d, 2)  total == d[4]
@@ -121,13 +121,13 @@ OnCm(ns, cfg, prio, sa, da, d, clk) ==
                had == Has(ns.rcv, key)
                b == [key |-> key, pgn |-> pgn, size |-> size, total |-> total,
                      nextp |-> 1, maxrec |-> None, data |-> <<>>, dl |-> clk + T1,
-                     sa |-> sa, da |-> da]
+                     sa |-> sa, da |-> da, act |-> clk]
                ns1 == [ns EXCEPT !.rcv = Append(Del(@, key), b), !.tok = @ + (IF had THEN 2 ELSE 1)]
            IN R(ns1, <<>>)
       [] cb = CB_ABORT ->
            LET key == Hash(da, sa)
            IN IF Has(ns.snd, key) /\ Get(ns.snd, key).st = WAITING_CTS
-              THEN R([ns EXCEPT !.snd = Put(@, [Get(ns.snd, key) EXCEPT !.st = FINISHED, !.dl = clk])], <<>>)
+              THEN R([ns EXCEPT !.snd = Put(@, [Get(ns.snd, key) EXCEPT !.st = FINISHED, !.dl = clk, !.act = clk])], <<>>)
               ELSE R(ns, <<>>)
       [] OTHER -> Exc(ns)                \* unknown control byte: RuntimeError to the feeder
 
@@ -147,12 +147,12 @@ OnDt(ns, cfg, prio, sa, da, d, clk) ==
                IN R(Wake([ns EXCEPT !.rcv = Del(@, key)]), ack \o Deliver(cfg, "msg", prio, b.pgn, sa, da, pay))
           ELSE IF da # GLOBAL /\ seqn >= b.nextp
           THEN IF b.maxrec = None      \* session opened by a BAM control byte sent to a specific address: KeyError
-               THEN [ns |-> [ns EXCEPT !.rcv = Put(@, [b EXCEPT !.data = got])], out |-> <<>>, exc |-> TRUE]
+               THEN [ns |-> [ns EXCEPT !.rcv = Put(@, [b EXCEPT !.data = got, !.act = clk])], out |-> <<>>, exc |-> TRUE]
                ELSE
                LET n == Min2(b.maxrec, b.total - b.nextp)
-                   b2 == [b EXCEPT !.data = got, !.nextp = Min2(b.nextp + b.maxrec, b.total), !.dl = clk + T2]
+                   b2 == [b EXCEPT !.data = got, !.nextp = Min2(b.nextp + b.maxrec, b.total), !.dl = clk + T2, !.act = clk]
                IN R(Wake([ns EXCEPT !.rcv = Put(@, b2)]), << TxCts(da, sa, n, b.nextp + 1, b.pgn) >>)
-          ELSE R(Wake([ns EXCEPT !.rcv = Put(@, [b EXCEPT !.data = got, !.dl = clk + T1])]), <<>>)
+          ELSE R(Wake([ns EXCEPT !.rcv = Put(@, [b EXCEPT !.data = got, !.dl = clk + T1, !.act = clk])]), <<>>)
 
 \* ecu.notify(can_id, data): returns [ns, out, exc, unmodeled]
 Notify(ns, cfg, id, d, clk) ==
@@ -211,7 +211,7 @@ Granule(ns, cfg, pc, clk) ==
                                            now |-> pc.now, did |-> pc.did], <<>>)
                                [] b.st = SENDING_BM ->
                                     LET pkg == b.next
-                                        b1 == [b EXCEPT !.next = @ + 1, !.dl = clk + cfg.bamInt]
+                                        b1 == [b EXCEPT !.next = @ + 1, !.dl = clk + cfg.bamInt, !.act = clk]
                                         more == b1.next < b.total
                                     IN G([ns EXCEPT !.snd = IF more THEN Put(@, b1) ELSE Del(@, k)],
                                          [rest EXCEPT !.did = TRUE, !.nw = IF more THEN Min2(@, b1.dl) ELSE @],
@@ -223,7 +223,7 @@ Granule(ns, cfg, pc, clk) ==
            IF b.next >= b.total
            THEN G(ns, [pc EXCEPT !.ph = "bexit"], <<>>)
            ELSE LET pkg == b.next
-                    b1 == [b EXCEPT !.next = @ + 1]
+                    b1 == [b EXCEPT !.next = @ + 1, !.act = clk]
                     atEnd == pkg = b.waitOn
                     paced == cfg.cmdtInt # None
                     b2 == IF atEnd THEN [b1 EXCEPT !.st = WAITING_CTS, !.dl = clk + T3]
